@@ -221,6 +221,8 @@ class Ref:
             c = copy.deepcopy(self.disk[r]) if self.disk[r] is not ABSENT else None
             if not path:
                 c = copy.deepcopy(value)
+            elif value == "#DEL":
+                del get_at(c, path[:-1])[path[-1]]
             else:
                 get_at(c, path[:-1])[path[-1]] = copy.deepcopy(value)
             self.disk[r] = c
@@ -378,7 +380,10 @@ class World:
                 res.ext_write(value)
             else:
                 c = res.read()
-                get_at(c, path[:-1])[path[-1]] = copy.deepcopy(value)
+                if value == "#DEL":
+                    del get_at(c, path[:-1])[path[-1]]
+                else:
+                    get_at(c, path[:-1])[path[-1]] = copy.deepcopy(value)
                 res.ext_write(c)
             return None
         try:
